@@ -76,6 +76,8 @@ def cases(tier, seed):
         for i in range(0, len(listonly), 64):
             yield ['list', wi, listonly[i:i + 64]]
         yield ['seedless', wi, None]
+        if wi % 4 == 1:
+            yield ['spell', wi, [5, 77]]
         if wi % 5 == 0:
             # a test module that touches the global random generator at import
             yield ['diskrandom', wi, [3, 11]]
@@ -98,7 +100,9 @@ def build(wi, nie=False, mod=None):
     for nm, sz in zip(names, sizes):
         layers.append({'n': nm, 'b': [], 'k': 'c', 'h': list(worlds.HOOKS_SD)})
         for i in range(sz):
-            tests.append({'n': '%s%d' % (nm.lower(), i), 'l': nm, 's': 'pass'})
+            # the tests of a layer come from three modules, interleaved
+            tests.append({'n': '%s%d' % (nm.lower(), i), 'l': nm, 's': 'pass',
+                          'tm': (mod or 'vtw.tests') + ('', '_b', '_c')[i % 3]})
     for i in range(unit):
         tests.append({'n': 'u%d' % i, 'l': None, 's': 'pass'})
     sp = {'layers': layers, 'tests': tests}
@@ -208,6 +212,14 @@ def run_modes(wi, seeds, listonly):
             viol.append(('list_mode_ran_code', sig, 'seed %s: trace %s' % (s, r.trace[:5])))
         if listonly:
             continue
+        # verbose listings list the same order
+        for vv in ('-v', '-vv', '-vvv'):
+            r = runrt.run_world(spec, seed_args(s) + ['--list-tests', vv], probe=False)
+            evals += 1
+            if r.escaped:
+                viol.append(('run_aborted', {'mode': 'list' + vv}, 'seed %s: %s' % (s, r.escaped_tb)))
+            elif parse_listing(r.text) != ref:
+                viol.append(('differs_from_reference_permutation', {'mode': 'list' + vv}, 'seed %s: --list-tests %s lists %s, reference %s' % (s, vv, parse_listing(r.text), ref)))
         # --list-tests together with -j N lists the same order
         r = runrt.run_world(spec, seed_args(s) + ['--list-tests', '-j2'], probe=False)
         evals += 1
@@ -292,6 +304,50 @@ def run_diskrandom(wi, seeds):
                 sys.path.remove(root)
     finally:
         env.rmtree(root)
+    return evals, viol
+
+
+SPELLINGS = {
+    'two tokens': lambda n: ['--shuffle', '--shuffle-seed', str(n)],
+    'one token': lambda n: ['--shuffle', '--shuffle-seed=%d' % n],
+    'abbreviated': lambda n: ['--shuffle', '--shuffle-se', str(n)],
+    'seed only': lambda n: ['--shuffle-seed', str(n)],
+    'seed first': lambda n: ['--shuffle-seed=%d' % n, '--shuffle'],
+    'given twice': lambda n: ['--shuffle', '--shuffle-seed', str(n + 1), '--shuffle-seed', str(n)],
+    'in defaults': lambda n: None,
+}
+
+
+def run_spell(wi, seeds):
+    """every spelling of the seed option gives the reference order of that
+    seed, in the listing and in every kind of run, and reports that seed"""
+    viol = []
+    evals = 0
+    for s in seeds:
+        for sp_name, mk in SPELLINGS.items():
+            for mode, argv, nie in (('list', ['--list-tests'], False), ('seq', [], False),
+                                    ('j2', ['-j2'], False), ('resumed', [], True)):
+                sp = build(wi, nie=nie)
+                ref = ref_orders(s, unshuffled(sp))
+                want_rep = {str(s)}
+                if sp_name == 'seed only':
+                    # a seed without --shuffle: nothing is shuffled or reported
+                    ref, want_rep = unshuffled(sp), set()
+                sig = {'mode': mode, 'spelling': sp_name}
+                if sp_name == 'in defaults':
+                    r = runrt.run_world(sp, argv, probe=False, defaults=['--shuffle', '--shuffle-seed', str(s)])
+                else:
+                    r = runrt.run_world(sp, mk(s) + argv, probe=False)
+                evals += 1
+                if r.escaped:
+                    viol.append(('run_aborted', sig, r.escaped_tb))
+                    continue
+                got = parse_listing(r.text) if mode == 'list' else executed_orders(r, sp)[0]
+                if got != ref:
+                    viol.append(('differs_from_reference_permutation', sig, 'seed %s spelled %s, %s: %s, reference %s' % (s, sp_name, mode, got, ref)))
+                reps = set(SEED_RE.findall(r.text))
+                if reps != want_rep:
+                    viol.append(('seed_not_reported', sig, 'seed %s spelled %s, %s: report lines %s' % (s, sp_name, mode, sorted(reps))))
     return evals, viol
 
 
@@ -395,6 +451,8 @@ def run_case(case):
         evals, vs = run_modes(a, b, True)
     elif kind == 'seedless':
         evals, vs = run_seedless(a)
+    elif kind == 'spell':
+        evals, vs = run_spell(a, b)
     elif kind == 'diskrandom':
         evals, vs = run_diskrandom(a, b)
     else:
